@@ -99,6 +99,17 @@ def _own_walk(fn):
         stack.extend(ast.iter_child_nodes(n))
 
 
+LIB_PARAMS = {
+    'scipy.stats.pearsonr': ['x', 'y'], 'scipy.stats.spearmanr': ['a', 'b'], 'scipy.stats.kendalltau': ['x', 'y'],
+    'sklearn.feature_selection.mutual_info_classif': ['X', 'y'], 'sklearn.metrics.adjusted_mutual_info_score': ['labels_true', 'labels_pred'],
+    'sklearn.metrics.mutual_info_score': ['labels_true', 'labels_pred'], 'sklearn.model_selection.cross_val_score': ['estimator', 'X', 'y'],
+    'numpy.random.normal': ['loc', 'scale', 'size'], 'numpy.random.randint': ['low', 'high', 'size'], 'numpy.random.choice': ['a', 'size', 'replace', 'p'],
+    'numpy.percentile': ['a', 'q'], 'numpy.column_stack': ['tup'], 'numpy.unique': ['ar'], 'numpy.where': ['condition', 'x', 'y'],
+    'numpy.arange': ['start', 'stop', 'step'], 'numpy.zeros': ['shape', 'dtype'], 'numpy.empty': ['shape', 'dtype'], 'numpy.full': ['shape', 'fill_value', 'dtype'],
+    'pandas.DataFrame': ['data'], 'pandas.concat': ['objs'],
+}
+
+
 class Canon:
     def __init__(self, module: Module, scope: Scope | None = None, inline: bool = True, bound: dict | None = None):
         self.m, self.scope, self.inline = module, scope or Scope(None), inline
@@ -345,6 +356,68 @@ class Canon:
             if f.attr == 'sum' and not kws and ft[1][0] == 'cmp':
                 return ('call', ('lib', 'numpy.count_nonzero'), (ft[1],), ())
             return ('call', ('lib', METHOD_AS_FUNC[f.attr]), (ft[1],), kws)
+        # 'a{}b{}'.format(x, y) is the concatenation of its pieces (like an f-string with plain fields)
+        if isinstance(f, ast.Attribute) and f.attr == 'format' and ft[0] == 'attr' and ft[1][0] == 'str' and not any(a[0] == 'star' for a in args):
+            import string
+            try:
+                pieces = list(string.Formatter().parse(ft[1][1]))
+            except ValueError:
+                pieces = None
+            if pieces is not None and all((not spec) and conv is None for _, _, spec, conv in pieces):
+                parts, auto, okf = [], 0, True
+                kwd = dict(kws)
+                for lit, field, _spec, _conv in pieces:
+                    if lit:
+                        parts.append(('str', lit))
+                    if field is None:
+                        continue
+                    if field == '':
+                        idx, auto = auto, auto + 1
+                    elif field.isdigit():
+                        idx = int(field)
+                    elif field in kwd:
+                        parts.append(kwd[field])
+                        continue
+                    else:
+                        okf = False
+                        break
+                    if idx >= len(args):
+                        okf = False
+                        break
+                    parts.append(args[idx])
+                if okf and parts:
+                    if len(parts) == 1:
+                        return parts[0] if parts[0][0] == 'str' else ('call', ('name', 'str'), (parts[0],), ())
+                    if any(p_[0] == 'str' for p_ in parts):
+                        return self._add(parts)
+                    return ('fstr', tuple(('fmt', p_) for p_ in parts))      # like f'{a}{b}': pieces in order, no literal text
+        # a call of a function of the package: keyword arguments are put into their positional slots (f(a, k=b) is f(a, b)) and trailing
+        # arguments that restate a constant default are dropped - how the arguments are passed is not part of what is computed
+        if kws or True:
+            norm = self._normalise_repo_call(ft, args, kws, e)
+            if norm is not None:
+                args, kws = norm
+            elif kws and dotted in LIB_PARAMS and not any(a[0] == 'star' for a in args):
+                # leading parameters of a few library functions the rules name: f(x=a, y=b) is f(a, b)
+                names = LIB_PARAMS[dotted]
+                given = dict(zip(names, args))
+                rest = []
+                okk = len(args) <= len(names)
+                for k_, v_ in kws:
+                    if k_ in names and k_ not in given:
+                        given[k_] = v_
+                    elif k_ in given:
+                        okk = False
+                    else:
+                        rest.append((k_, v_))
+                pos = []
+                for n_ in names:
+                    if n_ in given:
+                        pos.append(given[n_])
+                    else:
+                        break
+                if okk and len(pos) == len(given):
+                    args, kws = pos, tuple(sorted(rest))
         # a package helper whose body is a single `return <expr>` is the expression itself (helper extraction is tolerated)
         helper = self._single_return_helper(ft)
         if helper is not None and not kws and not any(isinstance(a, ast.Starred) for a in e.args) and len(self._stack) < 6:
@@ -360,6 +433,71 @@ class Canon:
                 finally:
                     self._stack.pop()
         return ('call', ft, tuple(args), kws)
+
+    def _repo_callee(self, ft, e):
+        """the Func a call term refers to, when it is a function / method of the package that can be told statically"""
+        repo = getattr(self.m, 'repo', None)
+        if ft[0] == 'lib' and ft[1].startswith('outrank.') and repo is not None:
+            modname, _, fname = ft[1].rpartition('.')
+            mod = repo.modules.get(modname)
+            if mod is not None and fname in mod.funcs:
+                return mod.funcs[fname], False
+            # Class.method / module.Class.method
+            m2, _, cname = modname.rpartition('.')
+            mod = repo.modules.get(m2)
+            if mod is not None and f'{cname}.{fname}' in mod.funcs:
+                return mod.funcs[f'{cname}.{fname}'], False
+        if ft[0] == 'name' and ft[1] in self.m.funcs and ft[1] not in self.scope.defs:
+            return self.m.funcs[ft[1]], False
+        if ft[0] == 'attr' and ft[1] == ('name', 'self') and self.scope.fn is not None and getattr(self.scope.fn, 'cls', None) is not None:
+            q = f'{self.scope.fn.cls.name}.{ft[2]}'
+            if q in self.m.funcs:
+                return self.m.funcs[q], True
+        return None
+
+    def _normalise_repo_call(self, ft, args, kws, e):
+        if any(a[0] == 'star' for a in args) or any(k == '**' for k, _ in kws):
+            return None
+        got = self._repo_callee(ft, e)
+        if got is None:
+            return None
+        callee, bound_method = got
+        a = callee.node.args
+        if a.vararg or a.kwarg or a.kwonlyargs or a.posonlyargs:
+            return None
+        params = [x.arg for x in a.args]
+        static = any(ast.unparse(d) == 'staticmethod' for d in callee.node.decorator_list)
+        if getattr(callee, 'cls', None) is not None and not static and (bound_method or (ft[0] == 'lib')) and params and params[0] in ('self', 'cls') and bound_method:
+            params = params[1:]
+        elif getattr(callee, 'cls', None) is not None and not static and params and params[0] in ('self', 'cls') and not bound_method:
+            return None        # Class.method(obj, ...): leave as written
+        defaults = dict(zip([x.arg for x in a.args][len(a.args) - len(a.defaults):], a.defaults))
+        if len(args) > len(params):
+            return None
+        given = dict(zip(params, args))
+        for k, v in kws:
+            if k in given or k not in params:
+                return None
+            given[k] = v
+        out = []
+        for p_ in params:
+            if p_ in given:
+                out.append(given[p_])
+            elif p_ in defaults and isinstance(defaults[p_], ast.Constant):
+                out.append(self._t(defaults[p_]))
+            else:
+                # a parameter without value and without constant default: everything from here on must be absent
+                if any(q in given for q in params[params.index(p_):]):
+                    return None
+                break
+        # trailing restatements of constant defaults
+        while out and len(out) <= len(params):
+            p_ = params[len(out) - 1]
+            if p_ in defaults and isinstance(defaults[p_], ast.Constant) and out[-1] == self._t(defaults[p_]):
+                out.pop()
+            else:
+                break
+        return out, ()
 
     def _single_return_helper(self, ft):
         name = None
